@@ -7,6 +7,10 @@ allvars == <<sc, path, t, fin, out>>
 CNeg1 == -1
 Steady(id) == CASE id = "L1" -> <<R(2)>> [] id = "L2" -> <<R(2)>> [] id = "L3" -> <<RZero, RZero>>
                 [] id = "L6" -> <<RZero, R(1)>> [] id = "L9" -> <<R(-2)>> [] id = "L4" -> <<R(2)>> [] id = "L10" -> <<R(2), R(2)>>
+                [] id = "L11" -> <<RZero, RZero>>
+\* the steady state is a path: the level above in period 0 and a change per period (zero unless the model grows)
+Growth(id) == IF id = "L11" THEN <<Q(1, 2), R(1)>> ELSE RZeroVec(Len(Model(id).vars))
+SteadyAt(id, k) == [i \in 1..Len(Model(id).vars) |-> RAdd(Steady(id)[i], RMul(R(k), Growth(id)[i]))]
 \* Deep selects the larger scenario sets of the thorough tier (overridden in the .thorough.cfg files: Deep <- DeepOn)
 Deep == FALSE
 DeepOn == TRUE
@@ -30,10 +34,10 @@ Prof(id, S) == [s \in 1..(TN + H + 2) |-> [j \in 1..Len(Model(id).shocks) |->
 WProf(id) == [s \in 1..(TN + H + 2) |-> [j \in 1..Len(Model(id).mshocks) |-> IF s = 2 THEN R(1) ELSE IF s = 3 THEN R(-2) ELSE RZero]]
 
 Scenarios == UNION {{[id |-> id, dev |-> dv, init |-> ini, u |-> us, a |-> as] :
-                        dv \in BOOLEAN, ini \in InitDevs(id), us \in UProfiles(id), as \in AProfiles(id)} : id \in SolvableIds}
+                        dv \in BOOLEAN, ini \in InitDevs(id), us \in UProfiles(id), as \in AProfiles(id)} : id \in SolvableIds \cup GrowthIds}
 
-InitPath(s) == LET base == IF s.dev THEN RZeroVec(Len(Model(s.id).vars)) ELSE Steady(s.id)
-                   p == [k \in CNeg1..0 |-> RVecAdd(base, IF k = 0 THEN s.init[1] ELSE s.init[2])] IN
+InitPath(s) == LET base(k) == IF s.dev THEN RZeroVec(Len(Model(s.id).vars)) ELSE SteadyAt(s.id, k)
+                   p == [k \in CNeg1..0 |-> RVecAdd(base(k), IF k = 0 THEN s.init[1] ELSE s.init[2])] IN
     \* in L10 the second variable is the first one a period earlier: the initial window has to say so
     IF s.id = "L10" THEN [p EXCEPT ![0] = <<p[0][1], p[CNeg1][1]>>] ELSE p
 
@@ -45,7 +49,7 @@ Step == /\ t < TN /\ ~fin
                 /\ out' = IF t + 1 < TN THEN <<>>
                           ELSE [src |-> Source(Model(sc.id)), linear |-> Model(sc.id).linear, vars |-> Model(sc.id).vars,
                                 logv |-> Model(sc.id).logv, shocks |-> Model(sc.id).shocks, mvars |-> Model(sc.id).mvars,
-                                mshocks |-> Model(sc.id).mshocks, steady |-> Steady(sc.id),
+                                mshocks |-> Model(sc.id).mshocks, steady |-> Steady(sc.id), growth |-> Growth(sc.id),
                                 u |-> [k \in 1..TN |-> Prof(sc.id, sc.u)[k]], a |-> [k \in 1..(TN + 2) |-> Prof(sc.id, sc.a)[k]],
                                 w |-> [k \in 1..TN |-> WProf(sc.id)[k]],
                                 eqs |-> Model(sc.id).eqs, meqs |-> Model(sc.id).meqs, T |-> Model(sc.id).T, K |-> Model(sc.id).K,
@@ -61,14 +65,17 @@ Spec == Init /\ [][Next]_allvars
 Inv_StructuralHolds == t >= 1 => \A i \in 1..Len(Model(sc.id).eqs) :
     Residual(sc.id, Model(sc.id).eqs[i], path, Prof(sc.id, sc.u), Prof(sc.id, sc.a), t, sc.dev) = RZero
 \* the library's steady state is the fixed point of the reduced form and solves the structural equations
-Inv_Steady == t = 0 => SteadyOk(sc.id, Steady(sc.id))
+Inv_Steady == t = 0 => \A k \in 0..(TN + 2) : SteadyOk(sc.id, SteadyAt(sc.id, k - 1), SteadyAt(sc.id, k))
 \* a level simulation is the steady state plus the deviation simulation of the same shocks
 RECURSIVE DevPath(_, _)
 DevPath(s, k) == IF k <= 0 THEN InitPath([s EXCEPT !.dev = TRUE])[k]
                  ELSE StepX(s.id, DevPath(s, k - 1), Prof(s.id, s.u)[k], Prof(s.id, s.a), k, TRUE)
-Inv_LevelIsSteadyPlusDeviation == (fin /\ ~sc.dev) => \A k \in 1..TN : path[k] = RVecAdd(Steady(sc.id), DevPath(sc, k))
+Inv_LevelIsSteadyPlusDeviation == (fin /\ ~sc.dev) => \A k \in 1..TN : path[k] = RVecAdd(SteadyAt(sc.id, k), DevPath(sc, k))
 \* the path does not explode: the stable root governs the propagation (checked on the certificate: |T| rows sum below 1 ...)
-Inv_Stable == t = 0 => \A i \in 1..Len(Model(sc.id).T) : RLt(RSumSeq([j \in 1..Len(Model(sc.id).T) |-> RAbsQ(Model(sc.id).T[i][j])], 1), Q(21, 20))
+\* (a growth model has a unit root: there T is triangular and its diagonal, the roots, does not exceed one)
+Inv_Stable == t = 0 => IF sc.id \in GrowthIds
+    THEN \A i \in 1..Len(Model(sc.id).T) : (\A j \in (i + 1)..Len(Model(sc.id).T) : Model(sc.id).T[i][j] = RZero) /\ ~RLt(ROne, RAbsQ(Model(sc.id).T[i][i]))
+    ELSE \A i \in 1..Len(Model(sc.id).T) : RLt(RSumSeq([j \in 1..Len(Model(sc.id).T) |-> RAbsQ(Model(sc.id).T[i][j])], 1), Q(21, 20))
 
 \* what the harness needs of the final state
 View == <<sc, path, t, fin>>
